@@ -21,7 +21,7 @@ def matches(hspec: dict[str, Any], body: Optional[dict[str, Any]]) -> bool:
     return all(labels.get(k) == v for k, v in want.items())
 
 
-def gen_daemon(ch: Chooser, hid: str, *, allow_hang: bool = False) -> dict[str, Any]:
+def gen_daemon(ch: Chooser, hid: str, *, allow_hang: bool = False, sync_share: float = 0.0) -> dict[str, Any]:
     mode = ch.weighted([('obey', 4), ('poll', 2), ('cancel', 3), ('ignore', 2), ('exit', 2), ('raise', 1), ('temp', 1)])
     opts: dict[str, Any] = {}
     if ch.bool(0.6):
@@ -50,10 +50,16 @@ def gen_daemon(ch: Chooser, hid: str, *, allow_hang: bool = False) -> dict[str, 
         behaviour['delay'] = ch.choice([0.5, 2.0])
     if ch.bool(0.2):
         behaviour['result'] = {'seen': 1}
+    if sync_share and ch.bool(sync_share):
+        # a synchronous daemon (runs in a simulated thread; cannot be cancelled, only flagged and abandoned)
+        behaviour['sync'] = True
+        if mode in ('cancel', 'ignore'):
+            behaviour['mode'] = 'ignore'
+            behaviour['hold'] = ch.choice([0.2, 2.0, 6.0])
     return {'id': hid, 'kind': 'daemon', 'opts': opts, 'daemon': behaviour}
 
 
-def gen_timer(ch: Chooser, hid: str) -> dict[str, Any]:
+def gen_timer(ch: Chooser, hid: str, sync_share: float = 0.0) -> dict[str, Any]:
     opts: dict[str, Any] = {}
     shape = ch.weighted([('interval', 5), ('idle', 2), ('both', 2), ('neither', 1)])
     if shape in ('interval', 'both'):
@@ -78,22 +84,26 @@ def gen_timer(ch: Chooser, hid: str) -> dict[str, Any]:
             step['result'] = {'tick': ch.int(0, 2)}
         script.append(step)
     script.append({'do': 'ok', 'dur': ch.choice([0.0, 0.1, 1.0])})
-    return {'id': hid, 'kind': 'timer', 'opts': opts, 'script': script}
+    spec: dict[str, Any] = {'id': hid, 'kind': 'timer', 'opts': opts, 'script': script}
+    if sync_share and ch.bool(sync_share):
+        spec['sync'] = True
+    return spec
 
 
 def gen_spawning_plan(ch: Chooser, *, daemons: tuple[int, int] = (1, 3), timers: tuple[int, int] = (0, 2),
                       pauses: bool = True, exits: bool = True, delete_handlers: bool = False,
                       foreign_finalizers: bool = False, max_objects: int = 3,
-                      horizon: Optional[float] = None, allow_hang: bool = False) -> dict[str, Any]:
+                      horizon: Optional[float] = None, allow_hang: bool = False,
+                      sync_share: float = 0.0) -> dict[str, Any]:
     settings = common.base_settings(ch)
     settings['cancellation_polling'] = ch.choice([0.5, 2.0])
     if ch.bool(0.3):
         settings['instant_exit_timeout'] = ch.choice([0.01, 0.1])
     handlers: list[dict[str, Any]] = []
     for i in range(ch.int(*daemons)):
-        handlers.append(gen_daemon(ch, f'dm{i + 1}', allow_hang=allow_hang))
+        handlers.append(gen_daemon(ch, f'dm{i + 1}', allow_hang=allow_hang, sync_share=sync_share))
     for i in range(ch.int(*timers)):
-        handlers.append(gen_timer(ch, f'tm{i + 1}'))
+        handlers.append(gen_timer(ch, f'tm{i + 1}', sync_share=sync_share))
     if delete_handlers:
         for i in range(ch.int(0, 2)):
             opts: dict[str, Any] = {}
